@@ -398,6 +398,11 @@ def run(ck):
     for j in jjobs:
         jid = job_id(j)
         check_joinprog(ck, j, jr.get(jid, "(no-result)"), jmeta[jid], jstats)
+    # the lowering of for-join / join (compile_bitonic_merge) is modelled in Compile/Lower.v: structural tie on the join programs
+    import lowertie
+    jsrcs = [(job_id(j), (jmeta[job_id(j)][1].src if jmeta[job_id(j)][0] == "gen" else jmeta[job_id(j)][1])) for j in jjobs]
+    ck.rng.shuffle(jsrcs)
+    lowertie.tie_pass(ck, jsrcs, max_programs=60 if quick else 800)
     ck.coverage.update({
         "evaluations": len(jobs) + jstats["runs"],
         "distinct_nontrivial": len(set(re.sub(r"^\(sortnet \S+ ", "", j) for j in jobs)) +
@@ -426,7 +431,8 @@ def run(ck):
         "(Gadgets.v, builder form; next_power_of_two()/2 as pow2_below); pure specification Sort.v",
         "assumed in the wire-level theorems: builder_ops_sound inv (BuilderSpec.v), proved separately for the concrete "
         "builder invariant",
-        "not modelled (searched only, joinprog jobs): compile.rs compile_bitonic_merge, JoinLoop, BuiltInFnCall::Join, "
+        "modelled and tied structurally (Compile/Lower.v; the emitted circuits compute the bit-level semantics TSem for all inputs, "
+        "LowerSound.v), but that TSem's join equals the reference join is searched only (joinprog jobs): compile.rs compile_bitonic_merge, JoinLoop, BuiltInFnCall::Join, "
         "check.rs typing of join_iter/join; tools/gen_join.py join_spec and literal encoders are trusted",
     ])
 
